@@ -308,6 +308,7 @@ class kLeastAbsErrorsCycles(walkmodel.AbstractWalkModelDiGraph):
                         product_var=self.pi_vars[(u, v, i)],
                         lb=0,
                         ub=self.w_max,
+                        integer_ub=max(self.w_max, self.edge_upper_bounds[(u, v)]),
                         name=f"u={u}_v={v}_i={i}_10",
                     )
 
